@@ -276,7 +276,8 @@ impl Monitor for C18 {
         let mut cfg = GenCfg::default();
         cfg.max_nodes = *rng.pick(&[5, 12, 30]);
         cfg.max_depth = *rng.pick(&[2, 4, 6]);
-        cfg.ns_mode = NsMode::None;
+        // namespace nodes in front of the attribute nodes on one element in three
+        cfg.ns_mode = if rng.chance(1, 3) { NsMode::Consistent } else { NsMode::None };
         cfg.text = TextProfile::Whitespace;
         cfg.allow_adjacent_text = true;
         cfg.allow_empty_text = true;
